@@ -417,6 +417,14 @@ func AnalyzePool(p *load.Program, r *Roles, depth int) *UnitResult {
 							}
 						})
 						pos := c.Eval(eng.Bin("<", eng.ConstInt(0), workers))
+						ev.Cond.Walk(func(n *eng.Term) {
+							if n.K == eng.KPure && n.S == "builtin.max" && len(n.A) == 2 {
+								a0, a1 := n.A[0], n.A[1]
+								if (a0 == workers && a1.IsConstInt() && a1.I == 1) || (a1 == workers && a0.IsConstInt() && a0.I == 1) {
+									okB = true
+								}
+							}
+						})
 						for _, b := range bounds {
 							if b == workers && pos == eng.TriTrue {
 								okB = true
